@@ -1906,8 +1906,21 @@ func (s *SweepingProvider) batchReprovide(prefix bitstr.Key) {
 	}
 
 	// Remove all keys matching coveredPrefix from provide queue. No need to
-	// provide them anymore since they are about to be reprovided.
-	s.provideQueue.DequeueMatching(prefix)
+	// provide them anymore since they are about to be reprovided. Keys that are
+	// not part of this reprovide (e.g. ProvideOnce keys, which aren't in the
+	// keystore) stay in the provide queue.
+	if queued := s.provideQueue.DequeueMatching(prefix); len(queued) > 0 {
+		pending := make(map[string]mh.Multihash, len(queued))
+		for _, h := range queued {
+			pending[string(h)] = h
+		}
+		for _, h := range keys {
+			delete(pending, string(h))
+		}
+		for _, h := range pending {
+			s.provideQueue.Enqueue(prefix, h)
+		}
+	}
 	// Remove covered prefix from the reprovide queue, so since we are about the
 	// reprovide the region.
 	s.reprovideQueue.Remove(prefix)
